@@ -37,14 +37,14 @@ pub fn run(scn: &Value) -> Value {
             loop {
                 let p = util::parse_response(&got, head);
                 if p.error.is_empty() && p.consumed > 0 { statuses.push(p.status as i64); break }
-                match tokio::time::timeout(std::time::Duration::from_millis(2000), c.read(&mut buf)).await {
+                match tokio::time::timeout(std::time::Duration::from_millis(15000), c.read(&mut buf)).await {
                     Ok(Ok(0)) | Ok(Err(_)) | Err(_) => break 'conn,
                     Ok(Ok(m)) => got.extend_from_slice(&buf[..m]),
                 }
             }
         }
         let _ = c.shutdown().await;
-        let _ = tokio::time::timeout(std::time::Duration::from_millis(1000), server).await;
+        let _ = tokio::time::timeout(std::time::Duration::from_millis(5000), server).await;
         statuses
     });
     let events = SINK.lock().unwrap().take().unwrap_or_default();
